@@ -338,7 +338,7 @@ def invariance_case(draw):
     case['method'] = draw(st.sampled_from(ORDER_METHODS))
     case['scales'] = draw(st.lists(st.sampled_from([0.125, 0.5, 1.0, 3.0, 7.5, 100.0, 0.3]),
                                    min_size=k, max_size=k))
-    case['shifts'] = draw(st.lists(st.sampled_from([0.0, 0.5, 2.0, 17.25, 1000.0]),
+    case['shifts'] = draw(st.lists(st.sampled_from([0.0, 0.5, 2.0, 17.25, 1000.0, 1048576.0]),
                                    min_size=k, max_size=k))
     # individual data RDMs in very small / large units (exact power-of-two factors)
     case['units'] = draw(st.lists(st.sampled_from([0, 0, 0, -60, -90, 40]), min_size=k, max_size=k))
